@@ -223,7 +223,7 @@ def wl_shift(ctx, idx, rng):
 
 def workloads(ctx):
     q = ctx.tier == "quick"
-    return [("shift", 980 if q else 30240, wl_shift)]
+    return [("shift", 3920 if q else 30240, wl_shift)]
 
 
 def setup(ctx):
